@@ -1,6 +1,7 @@
 //! ivh — verification harness for theangryangel/insim.rs (runtime monitoring family).
 #![allow(clippy::type_complexity)]
 
+pub mod alloc;
 pub mod bind;
 pub mod checks;
 pub mod corpus;
@@ -10,3 +11,7 @@ pub mod hang;
 pub mod rng;
 pub mod sess;
 pub mod transport;
+
+#[cfg(not(miri))]
+#[global_allocator]
+static GLOBAL: alloc::Counting = alloc::Counting;
